@@ -15,16 +15,17 @@ def run(name):
         r = sh('git -C %s apply %s' % (repo, os.path.join(VERIF, 'harmless', name))); assert r.returncode == 0, r.stderr
         sh("rsync -a --exclude .git --exclude .build --exclude build --exclude replays --exclude seeded --exclude notes %s/ %s/" % (VERIF, verif))
         for f in ('kani/Cargo.toml', 'replay/Cargo.toml'):
-            p = os.path.join(verif, f); open(p, 'w').write(open(p).read().replace('"/repo/', '"%s/' % repo))
+            p = os.path.join(verif, f); t = open(p).read().replace('"/repo/', '"%s/' % repo); open(p, 'w').write(t)
         for p in PROPS[hid]:
             pr = subprocess.run(['./check', p, '--tier', 'quick'], cwd=verif, capture_output=True, text=True, env=dict(os.environ, VERIF_REPO=repo))
-            tail = [re.sub(re.escape(base), '', l)[:220] for l in pr.stderr.strip().split('\n')[-3:]]
+            tail = [re.sub(re.escape(base), '', l)[:300] for l in pr.stderr.strip().split('\n') if l.startswith('UNDECIDED')][:3] + [re.sub(re.escape(base), '', l)[:220] for l in pr.stderr.strip().split('\n')[-1:]]
             out.append((name, p, pr.returncode, [l for l in pr.stdout.split('\n') if l.startswith('VIOLATION')][:3], tail))
-            print(name, p, 'exit', pr.returncode, tail[-1][:120], flush=True)
+            print(name, p, 'exit', pr.returncode, ' || '.join(tail)[:500], flush=True)
     finally:
         sh('git -C %s worktree remove --force %s' % (REPO, repo)); shutil.rmtree(base, ignore_errors=True); sh('git -C %s worktree prune' % REPO)
     return out
 names = sorted(f for f in os.listdir(os.path.join(VERIF, 'harmless')) if f.endswith('.diff'))
+if '--only' in sys.argv: names = [n for n in names if n.split('-')[0] in sys.argv[sys.argv.index('--only') + 1].split(',')]
 jobs = int(sys.argv[sys.argv.index('--jobs') + 1]) if '--jobs' in sys.argv else 3
 os.makedirs(SCR, exist_ok=True)
 with ThreadPoolExecutor(max_workers=jobs) as ex: res = [x for r in ex.map(run, names) for x in r]
